@@ -235,11 +235,13 @@ func shrink(tokens []string, kind string, fx *fixture) []string {
 	cur := append([]string(nil), tokens...)
 	for changed := true; changed; {
 		changed = false
-		for i := 0; i < len(cur); i++ {
-			cand := append(append([]string(nil), cur[:i]...), cur[i+1:]...)
-			if k, _, _, _ := eval(cand, fx); k == kind {
-				cur, changed = cand, true
-				i--
+		for w := 3; w >= 1; w-- { // windows of 3, 2, 1 tokens (a flag and its separate value go together)
+			for i := 0; i+w <= len(cur); i++ {
+				cand := append(append([]string(nil), cur[:i]...), cur[i+w:]...)
+				if k, _, _, _ := eval(cand, fx); k == kind {
+					cur, changed = cand, true
+					i--
+				}
 			}
 		}
 	}
@@ -268,7 +270,7 @@ func (mon) Name() string { return "cfgargs" }
 func (mon) Level(string) (string, string) {
 	return "exploration", "argument vectors run through the real NewFlagSet(&Cfg{9 types})+Parse and through a reference parser of the documented grammar; compared: error-vs-nil, Args(), ShowUsage(), all 9 field values, no panic. " +
 		"Exhaustive: every vector of length <= 5 (quick) / <= 6 (thorough, 17.9M) over the 16-token alphabet of DESIGN.md C10, plus every vector of length <= 3 (quick) / <= 4 (thorough) with one -config form (=valid file, =missing file, =invalid JSON, =empty, separate-token valid) inserted at every position; " +
-		"random: seeded vectors of <= 12 tokens from well-formed flags of all 9 types in all 4 spellings, near-misses, repeated flags, bool+stray value, unknown names, flag-like values and arbitrary byte strings (quick 1e5, thorough 1e7). " +
+		"random: seeded vectors of <= 12 tokens from well-formed flags of all 9 types in all 4 spellings, near-misses, repeated flags, bool+stray value, unknown names, flag-like values and arbitrary byte strings (quick 1e6, thorough 1e7). " +
 		"distinct_nontrivial = distinct parser paths: the tokens the reference parser looked at (up to and including the token it stopped or failed on), counted only when at least one token was a flag token"
 }
 
@@ -293,7 +295,7 @@ type shardArgs struct {
 
 func (mon) Plan(prop, tier string, seed int64) []drv.Shard {
 	var out []drv.Shard
-	maxLen, cfgLen, nrand, parts := 5, 3, 100000, 16
+	maxLen, cfgLen, nrand, parts := 5, 3, 1000000, 16
 	if tier == "thorough" {
 		maxLen, cfgLen, nrand = 6, 4, 10000000
 	}
